@@ -50,8 +50,18 @@ What is proved, and for which operations:
      stand-alone: `C07N_bj_sound`), and `Net.popTo` keeps the invariant (`C07N_popTo_inv`).
      Conservativity: `C07N_idlNewDistance_conservative` (every T-model of the old network extends to the
      new one); for the `new_var`s and the SAT constructors the T-models are literally the same.
-     NOT admitted (see the NOT PROVED block): `lraNewVarLin`, `lraNewRel`, `lraNewEq`, `idlNewRel`,
-     `rdlNewRel`, `check(lits)`.
+     Round 5: also admitted are the relation requests of the difference logics `idlNewRel`, `rdlNewRel`
+     (`new_lt … new_gt` and `new_eq`: zero, one or two `new_distance`s and, for `new_eq`, their conjunction;
+     the ghost set grows by the CNF of the resulting SAT core; `C07N_dl_relations_sound`; side condition
+     in `NetRun.room`: the `new_distance` side conditions for the constraints of the RESULTING theory), and
+     the LRA requests `lraNewVarLin`, `lraNewRel` (`new_var(lin)`, `new_lt … new_gt`) WHEN THE EXPRESSION
+     NAMES AN EXISTING VARIABLE, i.e. the call creates no slack variable and no tableau row
+     (`C07N_lra_requests_sound`; `NetRun.room`: `Lra.LinOK` and "the number of LRA variables does not
+     grow"; e.g. a bound `x ≤ c` on a variable created by `lraNewVar`).  So histories may now create LRA
+     assertions, assert and propagate them (`lra.propagateLit` records unate lemmas, `lra.check` runs on the
+     row-free tableau) - and `guards` is still automatic from `Net.init` (`C07N_all_histories_init_noGuard`).
+     NOT admitted (see the NOT PROVED block): `lraNewVarLin` / `lraNewRel` that create a slack row,
+     `lraNewEq`, `check(lits)`.
 
 -- CORRECTED: target 1 was described as `TEntails n' [] cnfl` ("the conflict clause is a theory
 -- lemma").  For IDL / RDL that is what is proved (`C07N_dl_conflict_pure`).  For LRA it is FALSE: a
@@ -334,15 +344,18 @@ theorem C07N_wfS_def (s : Sat) :
     one ghost frame per decision level, `FramesLv` (every value a frame's SAT core had is a current
     value of a level below the one the frame opened), and the registries `NetReg`: every assertion /
     distance constraint is controlled by an existing SAT variable, and the LRA theory satisfies
-    `Lra.GoodState` (C09R: no zero coefficient in a row, ...) -/
+    `Lra.GoodState` (C09R: no zero coefficient in a row, ...) and its assertion watch lists only name
+    existing SAT variables -/
 theorem C07N_netInv_def (n : Net) (orig L : Cnf) (fr : List Frame) :
     NetInv n orig L fr ↔
       (n.sat.WfS ∧ n.sat.Ent (orig ++ L) orig ∧ ∀ m, n.sat.DecOK m) ∧ (∀ c ∈ L, TEntails n orig c) ∧
       ThInv n orig fr ∧ FramesLv n.sat fr ∧ fr.length = n.sat.decisionLevel ∧
       ((∀ e ∈ n.lra.vAsrts, e.1 < n.sat.vals.length) ∧ (∀ c ∈ n.idl.varDists, c.b < n.sat.vals.length) ∧
-        (∀ c ∈ n.rdl.varDists, c.b < n.sat.vals.length) ∧ Lra.GoodState n.lra) :=
-  ⟨fun h => ⟨⟨h.sat.wf, h.sat.ent, h.sat.dec⟩, h.lemmas, h.th, h.flv, h.flen, h.reg.lra, h.reg.idl, h.reg.rdl, h.reg.good⟩,
-    fun ⟨⟨a, b, c⟩, d, e, f, g, r1, r2, r3, r4⟩ => ⟨⟨a, b, c⟩, d, e, f, g, ⟨r1, r2, r3, r4⟩⟩⟩
+        (∀ c ∈ n.rdl.varDists, c.b < n.sat.vals.length) ∧ Lra.GoodState n.lra ∧
+        (∀ x, ∀ b ∈ n.lra.aWatches.getD x [], b < n.sat.vals.length)) :=
+  ⟨fun h => ⟨⟨h.sat.wf, h.sat.ent, h.sat.dec⟩, h.lemmas, h.th, h.flv, h.flen, h.reg.lra, h.reg.idl, h.reg.rdl, h.reg.good,
+      h.reg.aw⟩,
+    fun ⟨⟨a, b, c⟩, d, e, f, g, r1, r2, r3, r4, r5⟩ => ⟨⟨a, b, c⟩, d, e, f, g, ⟨r1, r2, r3, r4, r5⟩⟩⟩
 
 theorem C07N_netInv_sound (n : Net) (orig L : Cnf) (fr : List Frame) (h : NetInv n orig L fr) : NetSound n orig := h.sound
 
@@ -455,8 +468,8 @@ theorem C07N_init_ok : NetOK ⟨Net.init, []⟩ := netOK_init
 theorem C07N_all_histories_noRows (fuel : Nat) (ops : List NetOp) (r r' : NetRun) (h : NetOK r)
     (ht : r.n.lra.tableau = []) (hm : r.rooms fuel ops) (he : r.steps fuel ops = some r') :
     NetOK r' ∧ NetSound r'.n r'.orig :=
-  ⟨(steps_ok ops r r' h (guards_noRows ops r ht) hm he).1,
-    (C07N_all_histories fuel ops r r' h (guards_noRows ops r ht) hm he).2.1⟩
+  ⟨(steps_ok ops r r' h (guards_noRows ops r ht hm) hm he).1,
+    (C07N_all_histories fuel ops r r' h (guards_noRows ops r ht hm) hm he).2.1⟩
 
 /-- non-vacuity (`NetEx.rootNet`: three IDL constraints at root level; history `assume b1`, `assume ¬b2`):
     the invariant holds of the start, the history runs, during the second call the IDL theory RECORDS the
@@ -559,45 +572,133 @@ theorem C07N_idlNewDistance_conservative (n : Net) (orig L : Cnf) (fr : List Fra
     ∃ α' : Asg, (∀ v, v < n.sat.vals.length → α' v = α v) ∧ TModel (idlNewDistance n f g w).2 α' :=
   h.idlNewDistance_conservative f g w α hm
 
+/-- the LRA requests and the DL relation requests as operations of the histories: precondition (root
+    level), step, side conditions -/
+theorem C07N_step_def_rel (fuel : Nat) (r : NetRun) (l : Lin) (rel : LRel) (drel : Dl.Rel) (a b : Lin) :
+    (r.pre (.lraNewVarLin l) = (!r.n.sat.dead && r.n.sat.rootLevel)) ∧
+    (r.pre (.lraNewRel rel a b) = (!r.n.sat.dead && r.n.sat.rootLevel)) ∧
+    (r.pre (.idlNewRel drel a b) = (!r.n.sat.dead && r.n.sat.rootLevel)) ∧
+    (r.pre (.rdlNewRel drel a b) = (!r.n.sat.dead && r.n.sat.rootLevel)) ∧
+    (r.pre (.lraNewVarLin l) = true → r.step fuel (.lraNewVarLin l) =
+      (Net.lraNewVarLin r.n l).map fun (_, n') => (⟨n', r.orig⟩, true)) ∧
+    (r.pre (.lraNewRel rel a b) = true → r.step fuel (.lraNewRel rel a b) =
+      (Net.lraNewRel r.n rel a b).map fun (_, n') => (⟨n', r.orig⟩, true)) ∧
+    (r.pre (.idlNewRel drel a b) = true → r.step fuel (.idlNewRel drel a b) =
+      (Net.idlNewRel r.n drel a b).map fun (_, n') => (⟨n', r.orig ++ n'.sat.toEnc.cnf⟩, true)) ∧
+    (r.pre (.rdlNewRel drel a b) = true → r.step fuel (.rdlNewRel drel a b) =
+      (Net.rdlNewRel r.n drel a b).map fun (_, n') => (⟨n', r.orig ++ n'.sat.toEnc.cnf⟩, true)) ∧
+    (r.room (.lraNewVarLin l) ↔ Lra.LinOK r.n.lra l ∧
+      ∀ v n', Net.lraNewVarLin r.n l = some (v, n') → n'.lra.vals.length = r.n.lra.vals.length) ∧
+    (r.room (.lraNewRel rel a b) ↔ Lra.LinOK r.n.lra a ∧ Lra.LinOK r.n.lra b ∧
+      ∀ p n', Net.lraNewRel r.n rel a b = some (p, n') → n'.lra.vals.length = r.n.lra.vals.length) ∧
+    (r.room (.idlNewRel drel a b) ↔ ∃ K E, r.n.idl.Exact K E ∧ Dl.ConstrsOk K r.n.idl ∧
+      ∀ p n', Net.idlNewRel r.n drel a b = some (p, n') → Dl.ConstrsOk K n'.idl) ∧
+    (r.room (.rdlNewRel drel a b) ↔ ∀ p n', Net.rdlNewRel r.n drel a b = some (p, n') →
+      DlR.ConstrsOkR n'.rdl ∧ ∀ c ∈ n'.rdl.varDists, c.dist.inf.den = 1) := by
+  refine ⟨rfl, rfl, rfl, rfl, ?_, ?_, ?_, ?_, Iff.rfl, Iff.rfl, Iff.rfl, Iff.rfl⟩ <;>
+    (intro h; unfold NetRun.step; rw [if_neg (by simp [h])])
+
+/-- **the LRA requests `new_var(lin)` and `new_lt / new_leq / new_geq / new_gt`** at root level, for canonical
+    expressions over existing variables (`Lra.LinOK`), when the call creates no slack variable (the expression -
+    after the substitution of the basic variables - names an existing variable): the invariant is kept (in
+    particular `LraJ`, the registries, `Lra.GoodState`, and for a new assertion: its controlling SAT variable
+    is new and watched on the right LRA variable), and every T-model of the new network is a T-model of the
+    old one -/
+theorem C07N_lra_requests_sound (n : Net) (orig L : Cnf) (fr : List Frame) (h : NetInv n orig L fr)
+    (hroot : n.sat.trailLim = []) :
+    (∀ (l : Lin) (v : Nat) (n' : Net), Lra.LinOK n.lra l → lraNewVarLin n l = some (v, n') →
+      n'.lra.vals.length = n.lra.vals.length →
+      NetInv n' orig L [] ∧ (∀ α, TModel n' α → TModel n α) ∧ n'.sat = n.sat) ∧
+    (∀ (r : LRel) (a b : Lin) (l : Lit) (n' : Net), Lra.LinOK n.lra a → Lra.LinOK n.lra b →
+      lraNewRel n r a b = some (l, n') → n'.lra.vals.length = n.lra.vals.length →
+      NetInv n' orig L [] ∧ (∀ α, TModel n' α → TModel n α) ∧ n'.sat.trailLim = [] ∧ n'.sat.dead = n.sat.dead ∧
+        n'.sat.queue = n.sat.queue) :=
+  ⟨fun l v n' hl he hns => h.at_lraNewVarLin hroot hl he hns,
+    fun r a b l n' ha hb he hns => h.at_lraNewRel hroot ha hb he hns⟩
+
+/-- a request that creates no slack variable creates no tableau row -/
+theorem C07N_lraNewRel_noRow (n : Net) (r : LRel) (a b : Lin) (l : Lit) (n' : Net)
+    (he : lraNewRel n r a b = some (l, n')) (hns : n'.lra.vals.length = n.lra.vals.length) :
+    n'.lra.tableau = n.lra.tableau := lraNewRel_tableau he hns
+
+/-- what a relation request of a difference logic does -/
+theorem C07N_dl_newRel_outcome {α : Type} (O : DOps α) (nc : Sat → List Lit → Lit × Sat) (s : Sat) (t : Dl α) (r : Dl.Rel)
+    (a b : Lin) (l : Lit) (s' : Sat) (t' : Dl α) (h : Dl.newRel O nc s t r a b = some (l, s', t')) :
+    (s' = s ∧ t' = t) ∨ (∃ f g w, Dl.newDistance O s t f g w = (l, s', t')) ∨
+    (∃ f g w w', nc (Dl.newDistance O (Dl.newDistance O s t f g w).2.1 (Dl.newDistance O s t f g w).2.2 g f w').2.1
+        [(Dl.newDistance O s t f g w).1,
+          (Dl.newDistance O (Dl.newDistance O s t f g w).2.1 (Dl.newDistance O s t f g w).2.2 g f w').1] = (l, s') ∧
+      t' = (Dl.newDistance O (Dl.newDistance O s t f g w).2.1 (Dl.newDistance O s t f g w).2.2 g f w').2.2) :=
+  Dl.newRel_out O nc h
+
+/-- **the relation requests of IDL and RDL** at root level: the invariant is kept, the ghost set growing by
+    the CNF of the resulting SAT core (the definitional clauses of the conjunction of `new_eq`); every T-model of
+    the new network is a T-model of the old one.  Side conditions: those of `new_distance` (C10's no-overflow
+    room `K` for IDL; finite weights with integer ε part for RDL) for the constraints of the resulting theory -/
+theorem C07N_dl_relations_sound (n : Net) (orig L : Cnf) (fr : List Frame) (h : NetInv n orig L fr)
+    (hroot : n.sat.trailLim = []) (hd : n.sat.dead = false) (r : Dl.Rel) (a b : Lin) (l : Lit) (n' : Net) :
+    (∀ K E, n.idl.Exact K E → Dl.ConstrsOk K n.idl → idlNewRel n r a b = some (l, n') → Dl.ConstrsOk K n'.idl →
+      NetInv n' (orig ++ n'.sat.toEnc.cnf) L [] ∧ ∀ α, TModel n' α → TModel n α) ∧
+    (rdlNewRel n r a b = some (l, n') → (DlR.ConstrsOkR n'.rdl ∧ ∀ c ∈ n'.rdl.varDists, c.dist.inf.den = 1) →
+      NetInv n' (orig ++ n'.sat.toEnc.cnf) L [] ∧ ∀ α, TModel n' α → TModel n α) :=
+  ⟨fun K E hE hok he hok' => h.at_idlNewRel hroot hd hE hok he hok', fun he hok' => h.at_rdlNewRel hroot hd he hok'⟩
+
 /-- **from `Net.init`**: after any history of admitted operations the network is sound -/
 theorem C07N_all_histories_init (fuel : Nat) (ops : List NetOp) (r' : NetRun)
     (hg : NetRun.guards fuel ⟨Net.init, []⟩ ops) (hm : NetRun.rooms fuel ⟨Net.init, []⟩ ops)
     (he : NetRun.steps fuel ⟨Net.init, []⟩ ops = some r') : NetOK r' ∧ NetSound r'.n r'.orig :=
   ⟨(C07N_all_histories fuel ops _ r' netOK_init hg hm he).1, (C07N_all_histories fuel ops _ r' netOK_init hg hm he).2.1⟩
 
-/-- none of the admitted constructors creates a tableau row, so from `Net.init` the side condition `guards`
-    is automatic: only the numeric preconditions of the DL constructors remain -/
+/-- none of the admitted constructors creates a tableau row (the LRA requests are admitted when they create
+    no slack variable: `NetRun.room`), so from `Net.init` the side condition `guards` is automatic: only the
+    side conditions `rooms` of the constructors remain -/
 theorem C07N_all_histories_init_noGuard (fuel : Nat) (ops : List NetOp) (r' : NetRun)
     (hm : NetRun.rooms fuel ⟨Net.init, []⟩ ops) (he : NetRun.steps fuel ⟨Net.init, []⟩ ops = some r') :
     NetOK r' ∧ NetSound r'.n r'.orig :=
-  C07N_all_histories_init fuel ops r' (guards_noRows ops _ rfl) hm he
+  C07N_all_histories_init fuel ops r' (guards_noRows ops _ rfl hm) hm he
 
-/-- non-vacuity from `Net.init` (`NetEx2.hist`): three IDL time points, three distance constraints `b1 b2 b3`, an
-    LRA and an RDL variable, a SAT variable `b4`, the reified disjunction `b5 := b1 ∨ b4`, the clauses `[b5]`,
-    `[¬b4]`, then `propagate` (unit propagation gives `b1`, handed to IDL), `assume ¬b2` (IDL records the lemma
-    `[¬b3, b2, ¬b1]`), `next` (blocking clause `[b2]` added, propagated at root).  The history runs, its side
-    conditions hold, and the theorem gives soundness of the final network. -/
-example : NetRun.steps 100 ⟨Net.init, []⟩ NetEx2.hist = some (NetEx2.st 15) ∧
-    NetRun.rooms 100 ⟨Net.init, []⟩ NetEx2.hist ∧ NetOK (NetEx2.st 15) ∧ NetSound (NetEx2.st 15).n (NetEx2.st 15).orig ∧
-    (NetEx2.st 15).n.sat.log = [[⟨3, false⟩, ⟨2, true⟩, ⟨1, false⟩], [⟨2, true⟩]] ∧ (NetEx2.st 15).orig.length = 7 ∧
-    (NetEx2.st 15).n.sat.dead = false := by
-  obtain ⟨a, b, _, d, e⟩ := NetEx2.final_ok
+/-- non-vacuity from `Net.init` (`NetEx2.hist`): three IDL time points, three distance constraints `b1 b2 b3`, the
+    IDL equality `x3 = x1 + 4` through `idlNewRel` (two constraints `b4 b5` and their reified conjunction `b6`),
+    an LRA variable `y0` and the two LRA assertions `b7 : y0 ≤ 5`, `b8 : y0 ≥ 7` created through `lraNewRel`, an RDL
+    variable, a SAT variable `b9`, the reified disjunction `b10 := b1 ∨ b9`, the clauses `[b10]`, `[¬b9]`, `[b7]`,
+    then `propagate` (unit propagation gives `b1`, handed to IDL, and `b7`, handed to LRA, which RECORDS the
+    lemma `[¬b8, ¬b7]` and propagates `¬b8`), `assume ¬b2` (IDL records the lemma `[¬b3, b2, ¬b1]`), `next`
+    (blocking clause `[b2]` added, propagated at root).  The history runs, its side conditions hold, and the
+    theorem gives soundness of the final network. -/
+example : NetRun.steps 100 ⟨Net.init, []⟩ NetEx2.hist = some (NetEx2.st 19) ∧
+    NetRun.rooms 100 ⟨Net.init, []⟩ NetEx2.hist ∧ NetOK (NetEx2.st 19) ∧ NetSound (NetEx2.st 19).n (NetEx2.st 19).orig ∧
+    (NetEx2.st 19).n.sat.log = [[⟨8, false⟩, ⟨7, false⟩], [⟨3, false⟩, ⟨2, true⟩, ⟨1, false⟩], [⟨2, true⟩]] ∧
+    (NetEx2.st 19).orig.length = 15 ∧ (NetEx2.st 19).n.sat.dead = false ∧
+    (NetEx2.st 19).n.lra.vAsrts.map (·.1) = [7, 8] ∧ (NetEx2.st 19).n.sat.value ⟨8, true⟩ = some false ∧
+    (NetEx2.st 19).n.idl.varDists.map (·.b) = [1, 2, 3, 4, 5] := by
+  obtain ⟨a, b, _, d, e, f, g, k⟩ := NetEx2.final_ok
   exact ⟨NetEx2.run_all, NetEx2.hist_rooms, a,
-    (C07N_all_histories_init_noGuard 100 NetEx2.hist _ NetEx2.hist_rooms NetEx2.run_all).2, b, d, e⟩
+    (C07N_all_histories_init_noGuard 100 NetEx2.hist _ NetEx2.hist_rooms NetEx2.run_all).2, b, d, e, f, g, k⟩
 
 -- NOT PROVED:
 -- * `ConflictsCurrent` (the remaining side condition `NetRun.guard` / `BjGuard`): every conflict of `lra.check`
 --   above root level cites a literal of the current decision level.  It needs "the bounds of the lower
 --   levels are feasible" (completeness of the simplex at the previous successful `check` + `LayersOK`).  It
 --   is automatic without tableau rows (`C07N_noRows`), hence along every history of the admitted operations
---   from `Net.init` (`C07N_all_histories_init_noGuard`): rows are only created by `lraNewVarLin / lraNewRel /
---   lraNewEq`, which are not admitted yet.
--- * The constructors `lraNewVarLin`, `lraNewRel`, `lraNewEq` (they create slack rows: `LraJ` must be
---   established for the TRUE-reason bounds `lb(lin)`, `ub(lin)` of the new slack - they hold in every
---   T-consistent model of `orig` because the bounds they are computed from have root-level reasons, which
---   `NetSound.trail` makes T-entailed - together with `TabWF / ExplInv / ValsOK / GoodState` (C09X / C09R give
---   those under `LinOK`) and conservativity of the new row), and `idlNewRel` / `rdlNewRel` (several
---   `new_distance` + `new_conj`: compositions of admitted steps, not assembled).
+--   from `Net.init` (`C07N_all_histories_init_noGuard`): rows are only created by the slack-creating case of
+--   `lraNewVarLin / lraNewRel / lraNewEq`, which is not admitted.
+-- * `lraNewVarLin` / `lraNewRel` WHEN THEY CREATE A SLACK VARIABLE (and its row), and `lraNewEq`.
+--   - Slack rows.  The bounds `lb(lin)`, `ub(lin)` of the new slack get the reason TRUE.  FINDING: the invariant
+--     `LraJ orig` as defined (every bound whose reason is true holds for every α ⊨ orig that is consistent with
+--     the LRA theory ALONE) cannot be re-established for them in general: the bounds they are computed from
+--     have root-level reasons, and a root-level literal is entailed by `orig ++ L` where `L` may contain
+--     lemmas of IDL / RDL - it is T-entailed (`NetSound.trail`) but not entailed modulo LRA alone.  `LraJ`
+--     has to be restated relative to the full `TModel` (it is only ever used under `TModel`, in
+--     `lra_propagate` / `lra_check`), or the slack-creating case restricted to "all current bounds of the
+--     variables of the expression have reason TRUE" (the usual case: constraints created before the search).
+--     In both versions what is missing is the soundness of the interval evaluation `lbLin / ubLin` in the
+--     ε-rational semantics of `BoundsJust` (C11S's `lbLin_below / ubLin_above` are for rational valuations and
+--     do not transfer: a bound with negative ε part is not below `σr + δ·σi` for a fixed δ); the other
+--     invariants are available (`explInv_newVarLin`, `valsOK_newVarLin`, `Lra.newVarLin_good`).
+--   - `lraNewEq` (two `newRel`s and `Sat.newConj`): the composition needs "the literal answered from the cache
+--     `sAsrts` names an existing SAT variable", a registry invariant not yet in `NetReg`; not assembled.
+--   - CONSERVATIVITY of a new LRA assertion is false for the same reason as for RDL below (`¬ (x ≤ v)` does not
+--     give `x ≥ v + ε` for arbitrary ε-rational valuations); restriction (monotonicity) is proved.
 -- * CONSERVATIVITY of `rdlNewDistance`: with `TModel` as defined (arbitrary ε-rational valuations of the RDL
 --   time points) it is FALSE in general - `¬ (σ g - σ f ≤ w)` does not give `σ f - σ g ≤ -w - ε` when the ε
 --   parts differ by a non-integer (C10R, correction 2); it would need `TModel` restricted to valuations with
